@@ -172,8 +172,8 @@ func c26Spec(p *c26Pool, div [][]int8, list []int, k int) (allowed uint32, class
 type c26Cfg struct{ m, maxLen, nMax int }
 
 type c26dirStat struct {
-	mism  atomic.Int64
-	mu    sync.Mutex
+	mism    atomic.Int64
+	mu      sync.Mutex
 	first   map[string]any
 	firstOf map[string]map[string]any
 	kinds   map[string]int64
